@@ -4,12 +4,24 @@ from bounded import sdf_drv
 
 
 def run(tier, seed):
-    res = PropertyResult('C14', 'exploration',
-                         'Bounded round-trip contract with a spec-side SDF printer (the lark-driven parser and the numpy annotation code are outside the VC generator): for '
+    res = PropertyResult('C14', 'other',
+                         'Tier P (two functions): (1) the grouping phase of SdfTransformer.start is executed symbolically for any sequence of children of the DELAYFILE tree (CELL blocks with any instance '
+                         'names incl. repeated and unnamed ones, any numbers of entries, other children in between) and proved to keep every entry of every block: cells[name] has exactly the '
+                         'entries of all blocks of that name, entry j of block i at position (entries of earlier blocks of that name) + j, keys = names seen (ghost recurrences CNTE/HASB, '
+                         'monotonicity lemma); (2) the clause "a single value list applies to both output polarities": kyupy.sdf.sanitize, through which every IOPATH / INTERCONNECT entry '
+                         'passes, is executed symbolically for entries with one and with two value lists and proved to return [name, name, rise, fall] with fall = the second list if given and '
+                         'otherwise the same single list. Tier B: bounded round-trip contract with a spec-side SDF printer (the lark-driven parser and the numpy annotation code are outside the VC generator): for '
                          'generated netlists and ghost IOPATH / INTERCONNECT entries under three CELL-block grouping styles and both branchforks settings, the arrays returned by '
                          'DelayFile.iopaths() / interconnects() equal the ghost ground truth entry by entry and are zero everywhere else.')
+    try:
+        from contracts import sdf_c
+        from pyvc.verify import verify
+        res.report = verify(sdf_c.targets() + sdf_c.targets_start(), timeout_s=20 if tier == 'quick' else 60)
+    except ImportError:
+        res.report = None
     res.bounded = [sdf_drv.part(tier, seed)]
-    res.assumptions = ['bounded over netlists and SDF renderings; ground truth placement (line feeding the named pin; branch-fork or sole line between two pins) written from the property',
+    res.assumptions = ['proved part: the design-name lookup before and the DelayFile constructor after the grouping loop (which moves cells[None] to _interconnects) are outside the verified statement range; str() of a lark token is an uninterpreted function; entries without any value list (grammar allows `triple*`) are outside the contract (sanitize returns two names only)',
+                       'bounded over netlists and SDF renderings; ground truth placement (line feeding the named pin; branch-fork or sole line between two pins) written from the property',
                        'the Verilog parser provides the circuit (its own round-trip contract is C11)']
-    res.trusted_base = ['bounded/sdf_drv.py', 'bounded/netlist_gen.py']
+    res.trusted_base = ['pyvc', 'z3 5.1.0', 'bounded/sdf_drv.py', 'bounded/netlist_gen.py']
     return res
